@@ -12,9 +12,16 @@ ctx = F.Ctx(chk, 'thorough')
 try:
     items = chk.make_items(ctx)
     plans = chk.make_plans(ctx, 'thorough', items)
+    pkey = [json.dumps([p['item'], p['params']], sort_keys=True) for p in plans]
+    index = dict((k, i) for i, k in enumerate(pkey))
     done = {}
     for l in open(log):
-        r = json.loads(l); done[r['i']] = r
+        r = json.loads(l)
+        if 'p' in r:
+            if r['p'] not in index:
+                continue
+            r['i'] = index[r['p']]
+        done[r['i']] = r
     assert len(done) == len(plans), (len(done), len(plans))
     pat = sys.argv[3] if len(sys.argv) > 3 else None
     todo = [i for i, r in sorted(done.items()) if r['key'] and (any(p in r['key'] for p in pat.split('|')) if pat else not r['key'].startswith('abort:assert:'))]
@@ -22,7 +29,7 @@ try:
     res = C.pmap(lambda i: chk.execute(ctx, items[plans[i]['item']], plans[i]['params']), todo, 2)
     changed = 0
     for i, r in zip(todo, res):
-        new = {'i': i, 'outcome': r.outcome, 'key': r.key if r.verdict else None, 'details': r.verdict[1] if r.verdict else None,
+        new = {'i': i, 'p': pkey[i], 'outcome': r.outcome, 'key': r.key if r.verdict else None, 'details': r.verdict[1] if r.verdict else None,
                'stderr': r.info.get('stderr_tail') if r.verdict else None}
         if new['key'] != done[i]['key']:
             changed += 1
